@@ -80,6 +80,9 @@ def digit_tables(ctx, py: PyRepo, fn: ast.FunctionDef):
         if isinstance(n, ast.BinOp) and isinstance(n.op, ast.Mult):
             fs = _factors(n)
             has_ms = [f for f in fs if isinstance(f, ast.Subscript) and isinstance(f.value, ast.Name) and f.value.id == names['most-significant']]
+            if has_ms and len(fs) == 2 and zip_weight_table(py, fn, conv[0]) is not None:
+                ok = True                   # ms[letter] * weight with the weight taken from a table: the table is checked under digit-order
+                continue
             if not has_ms or len(fs) != 3:
                 continue
             rest = [f for f in fs if f not in has_ms]
@@ -94,52 +97,129 @@ def digit_tables(ctx, py: PyRepo, fn: ast.FunctionDef):
     return names, conv[0]
 
 
+def _is_pattern_label(e) -> bool:
+    return isinstance(e, ast.JoinedStr) and 'is-pattern' in ast.unparse(e)
+
+
+def numbering_sites(py: PyRepo, fn: ast.FunctionDef, ci):
+    """where the mandatory hypotheses get their numbers: in _import_proof or in a method of the converter it calls (one level).
+    -> [(scope function, kind, node, source iterable, counter description)]  kind: 'loop' | 'comp'"""
+    scopes = [fn]
+    for c in ast.walk(fn):
+        if isinstance(c, ast.Call) and isinstance(c.func, ast.Attribute) and isinstance(c.func.value, ast.Name) and c.func.value.id == 'self' \
+                and c.func.attr in ci.methods and ci.methods[c.func.attr] not in scopes:
+            scopes.append(ci.methods[c.func.attr])
+    out = []
+    for sc in scopes:
+        for node in ast.walk(sc):
+            if isinstance(node, ast.For):
+                for st in ast.walk(node):
+                    if isinstance(st, ast.Assign) and isinstance(st.targets[0], ast.Subscript) and isinstance(st.targets[0].value, ast.Name) \
+                            and _is_pattern_label(st.value):
+                        out.append((sc, 'loop', node, st))
+            elif isinstance(node, ast.DictComp) and _is_pattern_label(node.value) and len(node.generators) == 1 and not node.generators[0].ifs:
+                out.append((sc, 'comp', node, None))
+    return out
+
+
 def numbering(ctx, py: PyRepo, fn: ast.FunctionDef, ci):
     oa = OrderAnalysis(py)
-    env = oa.local_env(fn)
-    where0 = py.where('metamath.converter.converter', fn)
-    loops = []
-    for node in ast.walk(fn):
-        if isinstance(node, ast.For):
-            for st in ast.walk(node):
-                if isinstance(st, ast.Assign) and isinstance(st.targets[0], ast.Subscript) and isinstance(st.targets[0].value, ast.Name) \
-                        and isinstance(st.value, ast.JoinedStr) and 'is-pattern' in ast.unparse(st.value):
-                    loops.append((node, st))
-    ctx.require(len(loops) >= 1, '_import_proof: cannot find the loop that numbers the mandatory hypotheses')
-    for loop, st in loops:
+    sites = numbering_sites(py, fn, ci)
+    ctx.require(len(sites) >= 1, '_import_proof: cannot find the loop that numbers the mandatory hypotheses')
+    for sc, kind, loop, st in sites:
+        env = oa.local_env(sc)
         where = py.where('metamath.converter.converter', loop)
-        it = loop.iter
+        header = loop.iter if kind == 'loop' else loop.generators[0].iter
+        target = loop.target if kind == 'loop' else loop.generators[0].target
+        it = header
         enum_start = None
         if isinstance(it, ast.Call) and isinstance(it.func, ast.Name) and it.func.id == 'enumerate' and it.args:
             # for number, var in enumerate(source, start=1)
             st_e = it.args[1] if len(it.args) > 1 else next((k.value for k in it.keywords if k.arg == 'start'), None)
             enum_start = st_e.value if isinstance(st_e, ast.Constant) else (0 if st_e is None else None)
             it = it.args[0]
-        src = order_from_set(fn, oa, env, ci, it)
+        src = order_from_set(sc, oa, env, ci, it)
         if src is not None:
             ctx.ob('hypothesis-order', 'numbering-loop', False,
                    f'the mandatory hypotheses are numbered in the iteration order of `{src[0]}`, a set of {src[1]}: with two or more '
                    f'variables the numbering depends on the hash seed instead of the database order', where)
         else:
-            ok, why = database_ordered(fn, it)
+            ok, why = database_ordered(sc, it)
             if ok is None:
                 raise AnalysisError(f'_import_proof: cannot decide whether `{ast.unparse(it)}` is in database order ({why})')
             ctx.ob('hypothesis-order', 'numbering-loop', ok, why, where, facts={'source': ast.unparse(it)})
         # the index is a counter that starts at 1 and is incremented once per hypothesis
-        idx = st.targets[0].slice
+        idx = st.targets[0].slice if kind == 'loop' else loop.key
         ok_idx = isinstance(idx, ast.Name)
-        if ok_idx and isinstance(loop.iter, ast.Call) and it is not loop.iter and isinstance(loop.target, ast.Tuple) and len(loop.target.elts) == 2 \
-                and isinstance(loop.target.elts[0], ast.Name) and loop.target.elts[0].id == idx.id:
+        if ok_idx and it is not header and isinstance(target, ast.Tuple) and len(target.elts) == 2 \
+                and isinstance(target.elts[0], ast.Name) and target.elts[0].id == idx.id:
             # the index is the enumerate counter: it must start at 1 and not be touched in the loop
-            touched = any(isinstance(a, (ast.Assign, ast.AugAssign)) and any(isinstance(x, ast.Name) and x.id == idx.id and isinstance(x.ctx, ast.Store)
-                                                                               for x in ast.walk(a)) for a in ast.walk(loop) if a is not loop)
+            touched = kind == 'loop' and any(isinstance(a, (ast.Assign, ast.AugAssign)) and any(
+                isinstance(x, ast.Name) and x.id == idx.id and isinstance(x.ctx, ast.Store) for x in ast.walk(a)) for a in ast.walk(loop) if a is not loop)
             ok_idx = enum_start == 1 and not touched
-        elif ok_idx:
-            inits = [a for a in ast.walk(fn) if isinstance(a, ast.Assign) and isinstance(a.targets[0], ast.Name) and a.targets[0].id == idx.id]
+        elif ok_idx and kind == 'loop':
+            inits = [a for a in ast.walk(sc) if isinstance(a, ast.Assign) and isinstance(a.targets[0], ast.Name) and a.targets[0].id == idx.id]
             incs = [a for a in ast.walk(loop) if isinstance(a, ast.AugAssign) and isinstance(a.target, ast.Name) and a.target.id == idx.id]
             ok_idx = len(inits) == 1 and isinstance(inits[0].value, ast.Constant) and inits[0].value.value == 1 and len(incs) == 1 \
                 and isinstance(incs[0].op, ast.Add) and isinstance(incs[0].value, ast.Constant) and incs[0].value.value == 1
+        else:
+            ok_idx = False
         ctx.ob('hypothesis-order', 'numbering-from-1', ok_idx, 'hypothesis numbers must be 1, 2, 3, ... in loop order', where)
+    label_table_fresh(ctx, py, fn, ci, sites)
+
+
+def label_table_fresh(ctx, py: PyRepo, fn, ci, sites):
+    """the number -> label table of one proof is extended in place with that proof's own label list (and becomes Proof.labels): it must
+    be an object created for that proof.  A table handed out of a cache or kept on the converter is shared by every proof that gets
+    it, so the labels of an earlier proof shift the numbers of a later one."""
+    from .c16 import returned_exprs
+
+    def fresh(e, scope, depth=0):
+        if isinstance(e, (ast.Dict, ast.DictComp)):
+            return True
+        if isinstance(e, ast.Call) and isinstance(e.func, ast.Name) and e.func.id == 'dict':
+            return True
+        if isinstance(e, ast.Call) and isinstance(e.func, ast.Attribute) and e.func.attr == 'copy' and not e.args:
+            return True
+        if isinstance(e, ast.Call) and isinstance(e.func, ast.Attribute) and isinstance(e.func.value, ast.Name) and e.func.value.id == 'self' \
+                and e.func.attr in ci.methods and depth < 2:
+            rets = returned_exprs(ci.methods[e.func.attr])
+            return bool(rets) and all(fresh(v, ci.methods[e.func.attr], depth + 1) for _st, v in rets)
+        if isinstance(e, ast.Name):
+            defs = [n for n in ast.walk(scope) if isinstance(n, (ast.Assign, ast.AnnAssign)) and n.value is not None
+                    and isinstance(n.targets[0] if isinstance(n, ast.Assign) else n.target, ast.Name)
+                    and (n.targets[0] if isinstance(n, ast.Assign) else n.target).id == e.id]
+            return bool(defs) and all(fresh(d.value, scope, depth + 1) for d in defs)
+        return False
+    # the table is the dict into which the labels are registered: a name that is subscript-assigned inside _import_proof (or one of
+    # its nested functions).  When that name is a parameter of a nested function, the table is what the callers pass for it.
+    n = 0
+    nested = [x for x in ast.walk(fn) if isinstance(x, ast.FunctionDef)]
+    for sc in nested:
+        params = [a.arg for a in sc.args.args]
+        stored = {t.value.id for st in ast.walk(sc) if isinstance(st, ast.Assign) for t in st.targets
+                  if isinstance(t, ast.Subscript) and isinstance(t.value, ast.Name)}
+        # only the scope's own stores (a nested def is handled as its own scope)
+        inner = {t.value.id for g in ast.walk(sc) if isinstance(g, ast.FunctionDef) and g is not sc for st in ast.walk(g)
+                 if isinstance(st, ast.Assign) for t in st.targets if isinstance(t, ast.Subscript) and isinstance(t.value, ast.Name)}
+        for name in sorted(stored - inner if sc is fn else stored):
+            if name in params and sc is not fn:
+                k = params.index(name)
+                for caller in nested:
+                    for c in ast.walk(caller):
+                        if isinstance(c, ast.Call) and isinstance(c.func, ast.Name) and c.func.id == sc.name and len(c.args) > k:
+                            n += 1
+                            ctx.ob('hypothesis-order', 'label-table-fresh', fresh(c.args[k], caller),
+                                   f'the table `{ast.unparse(c.args[k])}` that {sc.name} extends with the proof\'s labels is not an object created for '
+                                   f'this proof (a cached / shared dict): a second proof over the same variables inherits the labels of the first and '
+                                   f'every number after the hypotheses denotes the wrong thing', py.where('metamath.converter.converter', c))
+            elif name not in params:
+                n += 1
+                ctx.ob('hypothesis-order', 'label-table-fresh', fresh(ast.Name(id=name, ctx=ast.Load()), sc),
+                       f'the table `{name}` that {sc.name} fills with the proof\'s hypotheses and labels is not an object created for this proof '
+                       f'(a cached / shared dict): a second proof over the same variables inherits the labels of the first and every number '
+                       f'after the hypotheses denotes the wrong thing', py.where('metamath.converter.converter', sc))
+    ctx.require(n >= 1, '_import_proof: the table that receives the hypothesis numbers and the listed labels was not found')
 
 
 def order_from_set(fn, oa, env, ci, e, depth=0):
@@ -159,6 +239,32 @@ def order_from_set(fn, oa, env, ci, e, depth=0):
         defs = [n.value for n in ast.walk(fn) if isinstance(n, ast.Assign) and isinstance(n.targets[0], ast.Name) and n.targets[0].id == e.id]
         if defs:
             return order_from_set(fn, oa, env, ci, defs[0], depth + 1)
+    return None
+
+
+def zip_weight_table(py: PyRepo, fn: ast.FunctionDef, cf: ast.FunctionDef):
+    """the decoder pairs the high digits with precomputed place values: `.. for letter, w in zip(<letters>, <table>)`.
+    -> (letters expression, table expression, folded table or None, node) or None"""
+    from ..core.constfold import NotConstant, fold
+    for n in ast.walk(cf):
+        gens = n.generators if isinstance(n, (ast.GeneratorExp, ast.ListComp)) else ([n] if isinstance(n, ast.For) else [])
+        for g in gens:
+            it = g.iter
+            if isinstance(it, ast.Call) and isinstance(it.func, ast.Name) and it.func.id == 'zip' and len(it.args) == 2 \
+                    and isinstance(g.target, ast.Tuple) and len(g.target.elts) == 2:
+                consts = {}
+                tree = py.modules[MODULE].tree
+                for a in [x for x in tree.body if isinstance(x, ast.Assign)] + [x for x in ast.walk(fn) if isinstance(x, ast.Assign)]:
+                    if len(a.targets) == 1 and isinstance(a.targets[0], ast.Name):
+                        try:
+                            consts[a.targets[0].id] = fold(a.value, consts=consts)
+                        except NotConstant:
+                            pass
+                try:
+                    table = list(fold(it.args[1], consts=consts))
+                except (NotConstant, TypeError):
+                    table = None
+                return it.args[0], it.args[1], table, n
     return None
 
 
@@ -255,6 +361,28 @@ def digit_order(ctx, py: PyRepo, fn: ast.FunctionDef, names, cf):
     ctx.ob('digit-order', 'least-significant-is-last-letter', ok_ls,
            'the A..T digit must be taken from the LAST letter of the word', where)
     # high digits: traversal direction vs exponent direction
+    zw = zip_weight_table(py, fn, cf)
+    if zw is not None:
+        letters, table_e, table, node = zw
+        use_line[0] = getattr(node, 'lineno', 10 ** 9)
+        d = direction(letters)
+        use_line[0] = 10 ** 9
+        if d is None or table is None:
+            raise AnalysisError(f'convert_to_number: cannot determine the traversal direction of `{ast.unparse(letters)}` or the place '
+                                f'values `{ast.unparse(table_e)}`')
+        want = [20 * 5 ** i for i in range(len(table))]
+        ok = d[0] == 'rev' and d[1] and table == want
+        ctx.ob('digit-order', 'high-digits-weighted-right-to-left', ok,
+               f'the U..Y digits are traversed {"left-to-right" if d[0] == "fwd" else "right-to-left"} and paired with the place values '
+               f'{table[:4]}..: the digit next to the last letter must get weight 20*5^0, the next 20*5^1, ..', where,
+               facts={'traversal': d, 'place values': table})
+        # zip stops at the shorter sequence: a finite table silently drops the leading digits of longer words
+        largest = 20 + 25 * (5 ** len(table) - 1)
+        ctx.ob('digit-order', 'place-values-cover-the-numbers', largest >= 10 ** 6,
+               f'the place values are a finite table of {len(table)} entries and `zip` stops at the shorter sequence: a word with more than '
+               f'{len(table)} high digits loses its leading digits without an error, so every step number above {largest} decodes to a '
+               f'smaller one (the property covers at least 10^6)', where, facts={'entries': len(table), 'largest decodable': largest})
+        return
     loops = [n for n in ast.walk(cf) if isinstance(n, ast.For)]
     ctx.require(len(loops) == 1, 'convert_to_number: expected one loop over the high digits')
     lp = loops[0]
